@@ -301,6 +301,24 @@ func exploreLock(c *explore.Ctx, sc lockScenario, scratch string, deadline time.
 type recFS struct {
 	fs.FileSystem
 	renamedToBac int
+	files        []fs.File // every file the session opened: a killed process gives them back to the kernel
+}
+
+func (r *recFS) OpenFile(name string, flag int, perm os.FileMode) (fs.File, error) {
+	f, err := r.FileSystem.OpenFile(name, flag, perm)
+	if err == nil {
+		r.files = append(r.files, f)
+	}
+	return f, err
+}
+
+// die releases what the kernel releases when a process dies: descriptors and mappings (nothing is written; without
+// this the harness process accumulates a gigabyte of address space per file of every killed session).
+func (r *recFS) die() {
+	for _, f := range r.files {
+		_ = f.Close()
+	}
+	r.files = nil
 }
 
 func (r *recFS) Rename(o, n string) error {
@@ -350,6 +368,7 @@ func seqWord(c *explore.Ctx, kind string, word string, scratch string, n int) *e
 		defer os.RemoveAll(dir)
 	}
 	var open []*pogreb.DB
+	var openFS []*recFS
 	lastEnd := "clean"
 	model := map[string]string{}
 	nput := 0
@@ -400,6 +419,7 @@ func seqWord(c *explore.Ctx, kind string, word string, scratch string, n int) *e
 				}
 			}
 			open = append(open, db)
+			openFS = append(openFS, rf)
 		case 'P':
 			if len(open) == 0 {
 				continue
@@ -418,6 +438,7 @@ func seqWord(c *explore.Ctx, kind string, word string, scratch string, n int) *e
 				return mk("close-error", fmt.Sprintf("step %d: Close: %v", i+1, err))
 			}
 			open = open[1:]
+			openFS = openFS[1:]
 			lastEnd = "clean"
 		case 'K':
 			if len(open) == 0 || kind == "mem" {
@@ -426,12 +447,15 @@ func seqWord(c *explore.Ctx, kind string, word string, scratch string, n int) *e
 			if err := fs.VerifKillLock(open[0].VerifLockFile()); err != nil {
 				return mk("harness", "kill: "+err.Error())
 			}
+			openFS[0].die()
 			open = open[1:]
+			openFS = openFS[1:]
 			lastEnd = "killed"
 		}
 	}
-	for _, db := range open {
+	for i, db := range open {
 		_ = fs.VerifKillLock(db.VerifLockFile())
+		openFS[i].die()
 	}
 	return nil
 }
